@@ -772,6 +772,10 @@ class Explorer:
                     src = op_place(d[2]["rv"]["a"][0])
                     if src is not None and not src.get("p"):
                         _feeds(src["l"], seen)
+                elif d[1] is not None and d[2]["rv"]["r"] == "un" and d[2]["rv"]["op"] == "Not" and not d[2]["lhs"].get("p"):
+                    src = op_place(d[2]["rv"]["a"][0])
+                    if src is not None and not src.get("p"):
+                        _feeds(src["l"], seen)       # `if !flag`: the flag's value decides the branch
         cand = set()
         for l in switched:
             if l < len(fn.locals):
@@ -825,9 +829,38 @@ class Explorer:
                 continue
             lhs = st["lhs"]
             rv = st["rv"]
+            # ---- constants held in fields of a local struct (a guard's `armed` flag): ("fc", base local, field index)
+            pend_c = None
+            ft = self._field_target(lhs)
+            if ft is not None:
+                c_ = op_const(rv["a"][0]) if rv["r"] == "use" else None
+                if c_ is None and rv["r"] == "use" and op_local(rv["a"][0]) is not None and ("c", op_local(rv["a"][0])) in env:
+                    c_ = env[("c", op_local(rv["a"][0]))]
+                if c_ is not None and isinstance(c_, int):
+                    env[("fc", ft[0], ft[1])] = c_
+                else:
+                    env.pop(("fc", ft[0], ft[1]), None)
+            elif not lhs.get("p"):
+                for k in [k for k in env if k[0] == "fc" and k[1] == lhs["l"]]:
+                    del env[k]
+                if rv["r"] == "agg" and rv["kind"].get("adt"):
+                    for i_, a_ in enumerate(rv["a"]):
+                        c_ = op_const(a_)
+                        if isinstance(c_, (int, bool)):
+                            env[("fc", lhs["l"], i_)] = int(c_)
+                elif rv["r"] == "use" and op_place(rv["a"][0]) is not None and not rv["a"][0]["pl"].get("p"):
+                    src_ = rv["a"][0]["pl"]["l"]
+                    for k in [k for k in env0 if k[0] == "fc" and k[1] == src_]:
+                        env[("fc", lhs["l"], k[2])] = env0[k]
+                elif rv["r"] == "use" and lhs["l"] in self.interesting_locals:
+                    rt = self._field_target(rv["a"][0]["pl"]) if op_place(rv["a"][0]) is not None else None
+                    if rt is not None and ("fc", rt[0], rt[1]) in env0:
+                        pend_c = (lhs["l"], env0[("fc", rt[0], rt[1])])
             if rv["r"] in ("ref", "raw") and "Mut" in rv.get("m", "") and "Shared" not in rv.get("m", ""):
                 self._kill(env, rv["pl"]["l"])
             self._kill(env, lhs["l"])
+            if pend_c is not None:
+                env[("c", pend_c[0])] = pend_c[1]
             if not lhs.get("p") and (lhs["l"],) in self.interesting_places:
                 if rv["r"] == "agg" and "vi" in rv["kind"]:
                     env[("d", (lhs["l"],))] = rv["kind"]["vi"]
@@ -870,6 +903,40 @@ class Explorer:
                 if src is not None and ("p", (src,)) in env0:
                     env[("p", (t["dest"]["l"],))] = env0[("p", (src,))]
         return env
+
+    def _field_target(self, pl):
+        """(base local, field index) when the place is one field of a local struct, directly (`s.f`) or through a reference to it (`(*r).f`, r = &mut s)"""
+        fn = self.fn
+        p = pl.get("p") or []
+        flds = [e["f"] for e in p if isinstance(e, dict) and "f" in e]
+        if len(flds) != 1 or any(isinstance(e, dict) and ("v" in e or "i" in e or "ci" in e) for e in p):
+            return None
+        l = pl["l"]
+        if p[0] == "*":
+            if len(p) != 2:
+                return None
+            seen = set()
+            while l not in seen:
+                seen.add(l)
+                ds = [d for d in fn.defs().get(l, []) if not fn.is_cleanup(d[0]) and not (d[1] is not None and d[2]["lhs"].get("p"))]
+                if len(ds) != 1 or ds[0][1] is None:
+                    return None
+                r_ = ds[0][2]["rv"]
+                if r_["r"] in ("ref", "raw") and not r_["pl"].get("p"):
+                    l = r_["pl"]["l"]
+                    if not (fn.local_ty(l).startswith("&") or fn.local_ty(l).startswith("*")):
+                        break
+                elif r_["r"] in ("ref", "raw") and r_["pl"].get("p") == ["*"]:
+                    l = r_["pl"]["l"]
+                elif r_["r"] in ("use", "cast") and op_place(r_["a"][0]) is not None and not r_["a"][0]["pl"].get("p"):
+                    l = r_["a"][0]["pl"]["l"]
+                else:
+                    return None
+            if fn.local_ty(l).startswith("&") or fn.local_ty(l).startswith("*"):
+                return None
+        elif len(p) != 1:
+            return None
+        return (l, flds[0])
 
     @staticmethod
     def _kill(env, local):
@@ -914,6 +981,10 @@ class Explorer:
                         holds = env_after[("d", (base,))] == PRED_TRUE_DISCR[lab["pred"]]
                         if holds != lab["truth"]:
                             feasible = False
+            elif lab["kind"] == "not":
+                l = op_local(lab["of"])
+                if l is not None and ("c", l) in env_after and bool(env_after[("c", l)]) == bool(lab["truth"]):
+                    feasible = False        # the switch is on !x: the arm `truth` needs x == !truth
             elif lab["kind"] == "val":
                 l = lab["place"]["l"] if not lab["place"].get("p") else None
                 if l is not None and ("c", l) in env_after and env_after[("c", l)] != lab["value"]:
